@@ -2,6 +2,7 @@
 from __future__ import annotations
 
 import ast
+import itertools
 import re
 
 from ..core.ordertaint import OrderAnalysis, ann_set_elem
@@ -192,6 +193,8 @@ def run(ctx):
     ctx.ob('dispatch-ends-raising', 'slice_database', ok,
            'the statement-kind dispatch of slice_database must end in a branch that raises for an unanticipated kind', py.where(SLICER, fn))
     slice_closure(ctx, py)
+    disjoint_all_pairs(ctx, py)
+    parser_state_fresh(ctx, py)
     ctx.floor('encoder-exhaustive', 9)
     ctx.floor('keyword-agreement', 8)
     ctx.floor('statement-letter', 5)
@@ -426,6 +429,59 @@ def slice_closure(ctx, py: PyRepo):
     ctx.analysed['slice: emission sites'] = len(emitted)
     ctx.analysed['slice: origins scanned'] = {'constants': sorted(scan_c), 'variables': sorted(scan_m)}
     ctx.floor('slice-closure', 12)
+
+
+def disjoint_all_pairs(ctx, py: PyRepo):
+    """`$d v1 .. vn $.` makes EVERY two of its variables disjoint; the slicer records the restriction pairwise, so the loop nest that
+    records them must enumerate all unordered pairs (decided by evaluating the loop headers over four abstract variables)"""
+    from ..core import iterspace as IS
+    fn = py.function(SLICER, 'slice_database')
+    branches = [n for n in ast.walk(fn) if isinstance(n, ast.If) and re.fullmatch(r'isinstance\((\w+), DisjointStatement\)', ast.unparse(n.test))]
+    ctx.require(len(branches) == 1, 'slice_database: branch for `$d` statements not found')
+    br = branches[0]
+    var = re.fullmatch(r'isinstance\((\w+), DisjointStatement\)', ast.unparse(br.test)).group(1)
+    base = f'{var}.metavariables'
+    where = py.where(SLICER, br)
+
+    def is_sink(c):
+        return isinstance(c.func, ast.Attribute) and c.func.attr == 'add' and len(c.args) == 1 and isinstance(c.args[0], ast.Call) \
+            and ast.unparse(c.args[0].func) == 'frozenset' and len(c.args[0].args) == 1 \
+            and isinstance(c.args[0].args[0], (ast.Set, ast.Tuple, ast.List)) and len(c.args[0].args[0].elts) == 2
+
+    try:
+        got = IS.tuples_reaching(br.body, base, is_sink, lambda c: c.args[0].args[0].elts)
+    except IS.Unsupported as ex:
+        ctx.require(False, f'slice_database: the loop recording `$d` pairs is outside the analysed idioms ({ex})')
+    pairs = {frozenset(t) for t in got if len(set(t)) == 2}
+    want = {frozenset(p) for p in itertools.combinations(range(IS.K), 2)}
+    missing = sorted(tuple(sorted(p)) for p in want - pairs)
+    ctx.ob('slice-closure', 'disjoint-all-pairs', not missing,
+           f'for a `$d` over variables v0..v{IS.K - 1} the slicer records the pairs {sorted(tuple(sorted(p)) for p in pairs)} and drops '
+           f'{missing}: a slice then lacks a disjointness restriction the lemma\'s proof relies on and the proof no longer verifies '
+           f'against it', where, facts={'pairs recorded (abstract indices)': sorted(tuple(sorted(p)) for p in pairs)})
+
+
+def parser_state_fresh(ctx, py: PyRepo):
+    """the parse transformer remembers the variables declared so far; a database re-parses to itself only if every parse starts
+    from a fresh transformer (no instance created at import time / shared through a module-level parser object)"""
+    from .c18 import module_level_stateful_instances, stateful_classes
+    st = stateful_classes(py)
+    tr = [c for c in py.module(PARSER).classes.values() if c.name in st]
+    shared = module_level_stateful_instances(py, only_modules={PARSER})
+    for mname, node, cname, attrs in shared:
+        ctx.ob('parser-state-fresh', f'{cname}@module', False,
+               f'{mname} creates a {cname} at import time; it accumulates {", ".join(attrs[:3])} while parsing, so a later parse in the same '
+               f'process sees the variables declared by an earlier one (a constant can come back as a variable; an undeclared '
+               f'variable is accepted)', py.where(mname, node))
+    # positive instances: construction sites inside functions
+    n = 0
+    for c in tr:
+        for fname, fn in py.module(PARSER).functions.items():
+            for x in ast.walk(fn):
+                if isinstance(x, ast.Call) and isinstance(x.func, ast.Name) and x.func.id == c.name:
+                    n += 1
+                    ctx.ob('parser-state-fresh', f'{c.name}@{fname}', True, '', py.where(PARSER, x))
+    ctx.floor('parser-state-fresh', 2)
 
 
 def _encl(tree, node) -> str:
